@@ -157,15 +157,30 @@ def run_history(size, ops, check_every_step=True):
 # (b) cached_template histories
 
 # incl. sources that differ only in leading / trailing whitespace or letter case (a too coarse cache key would merge them)
-SOURCES = ["A{{ v }}", "B{{ v }}{% if v %}y{% endif %}", "C", "{{ v|upper }}D", "E{% for i in l %}{{ i }}{% endfor %}", " A{{ v }}", "A{{ v }}\n", "a{{ v }}", "C "]
+SOURCES = ["A{{ v }}", "B{{ v }}{% if v %}y{% endif %}", "C", "{{ v|upper }}D", "E{% for i in l %}{{ i }}{% endfor %}", " A{{ v }}", "A{{ v }}\n", "a{{ v }}", "C ",
+           'S{% component "c18swap" / %}{{ v }}']  # the last one renders whatever class is registered as c18swap AT RENDER TIME
 
 
 def run_ct_history(size, ops):
-    """ops: list of [src_idx, cls_idx, eng_idx]."""
+    """ops: list of [src_idx, cls_idx, eng_idx] or [src_idx, cls_idx, eng_idx, 1] (1: before this step the name c18swap is
+    re-registered with the other of two component classes)."""
     from django.template import Context, Template, engines
 
     import django_components.cache as djc_cache
-    from django_components import cached_template
+    from django_components import Component, cached_template, registry
+    from vf.core import normalize_ids
+
+    class SwapA(Component):
+        template = "inner-A"
+
+    class SwapB(Component):
+        template = "inner-B"
+
+    swap = [SwapA, SwapB]
+    cur = [0]
+    if "c18swap" in registry.all():
+        registry.unregister("c18swap")
+    registry.register("c18swap", SwapA)
 
     class MyTemplate(Template):
         pass
@@ -179,7 +194,12 @@ def run_ct_history(size, ops):
     with env.components_settings(template_cache_size=size):
         model = Model(size)
         last_obj = {}
-        for i, (si, ci, ei) in enumerate(ops):
+        for i, op_ in enumerate(ops):
+            si, ci, ei = op_[:3]
+            if len(op_) > 3 and op_[3]:
+                cur[0] ^= 1
+                registry.unregister("c18swap")
+                registry.register("c18swap", swap[cur[0]])
             src = SOURCES[si]
             key = (ci, si, ei)
             try:
@@ -202,8 +222,13 @@ def run_ct_history(size, ops):
                 fails.append(("step %d: returned %s, wanted %s" % (i, type(t).__name__, want_cls.__name__), "ct-class"))
                 break
             ctx = {"v": "x%d" % i, "l": [1, i]}
-            fresh = want_cls(src, engine=engs[ei]).render(Context(ctx))
-            got = t.render(Context(ctx))
+            fresh = normalize_ids(want_cls(src, engine=engs[ei]).render(Context(ctx)))
+            got = normalize_ids(t.render(Context(ctx)))
+            if si == len(SOURCES) - 1:
+                # rendering the component compiles / looks up ITS template through the same cache (twice: fresh + cached render)
+                ikey = ("inner", cur[0])
+                if model.get(ikey) is None:
+                    model.set(ikey, "inner")
             if got != fresh:
                 fails.append(("step %d: cached render %r != fresh %r" % (i, got, fresh), "ct-render"))
                 break
@@ -214,6 +239,8 @@ def run_ct_history(size, ops):
             if n != len(model.d):
                 fails.append(("step %d: cache holds %d entries, model %d" % (i, n, len(model.d)), "ct-count"))
                 break
+    if "c18swap" in registry.all():
+        registry.unregister("c18swap")
     env.reset(clear_registry=False)
     return fails, model
 
@@ -332,7 +359,8 @@ def run_shard(spec):
         return hyp_search(strat, check, col, max_examples=spec["n"], seed=spec["seed"])
 
     if kind == "hyp_ct":
-        op = st.tuples(st.integers(0, len(SOURCES) - 1), st.integers(0, 1), st.integers(0, 1)).map(list)
+        # the last source (component tag) is drawn more often; a fifth of the steps re-register its component name first
+        op = st.tuples(st.sampled_from(list(range(len(SOURCES))) + [len(SOURCES) - 1] * 3), st.integers(0, 1), st.integers(0, 1), st.sampled_from([0, 0, 0, 0, 1])).map(list)
         strat = st.fixed_dictionaries({"part": st.just("ct"), "size": st.sampled_from([0, 1, 2, 3, 128]), "ops": st.lists(op, min_size=3, max_size=25)})
 
         def check(case):
